@@ -2,6 +2,7 @@ package ipc
 
 import (
 	"fmt"
+	"go/constant"
 	"go/token"
 	"go/types"
 
@@ -219,7 +220,38 @@ func runC04(c *Ctx) {
 				}
 			}
 			if app == nil {
-				c.Bad("C04.P", key, p, r.Instr.Pos(), "the received ID is not appended to the reply slice")
+				// other shapes (the ID returned by a helper and placed into the reply with a literal or an
+				// append in the caller): every return of waitForRequestIDs that the receive can reach must
+				// hand back a value built from the received ID
+				bad := "no return follows the receive"
+				hit, _ := (&Walk{Target: func(i ssa.Instruction) bool {
+					ret, isR := i.(*ssa.Return)
+					if !isR || i.Parent() != wf || (wf.Recover != nil && i.Block() == wf.Recover) {
+						return false
+					}
+					if bad == "no return follows the receive" {
+						bad = ""
+					}
+					derives := false
+					SliceBack(ReturnValue(ret, 0), func(v ssa.Value) bool {
+						if v == r.Val {
+							derives = true
+						}
+						return true
+					})
+					if !derives {
+						bad = "the return at " + p.Pos(ret.Pos()) + " after the receive does not carry the received ID"
+					}
+					return false
+				}, Ctx: wf, Edge: EdgeUnder(func(v ssa.Value) (constant.Value, bool) {
+					// inside the select: the arm that received
+					if ex, isE := v.(*ssa.Extract); isE && r.Select != nil && ex.Tuple == ssa.Value(r.Select) && ex.Index == 0 {
+						return IntC(int64(r.State)), true
+					}
+					return nil, false
+				})}).FromInstr(r.Instr)
+				_ = hit
+				c.Check("C04.P", key, p, r.Instr.Pos(), bad == "", "every return of waitForRequestIDs reachable after the receive hands back a slice built from the received ID", "the received ID is not kept: "+bad+": that client request is never listed and never served")
 				continue
 			}
 			// every return reachable after the append returns a value derived from it
